@@ -12,7 +12,11 @@ def run():
     for (lib, tier), cfg in graph.MODELS.items():
         if tier == "quick" and os.path.exists(os.path.join(SPEC, cfg)):
             tlc_cached(f"graph-{lib}-{tier}", "MC_Graph", cfg, workers=12, timeout=900)
-    from . import names
+    from . import names, plug, det, registry
     names.artefacts("quick")
+    plug.artefacts("quick")
+    det.artefacts("quick")
+    registry.artefacts("quick")
+    registry.build()
     log("[setup] done")
     return 0
